@@ -44,8 +44,15 @@ def run_scenario(item):
         b = {n: w.backend(n) for n in ('b1', 'b2', 'b3', 'b4')}
         ports = {n: x.port for n, x in b.items()}
         ports['dead'] = W.free_port()
-        w.port = W.free_port()
-        w.start(text=file_text(w, 'A', ports), port=w.port)
+        for attempt in range(4):
+            # (the port is part of the file: when another process took it first, take another one and render again)
+            w.port = W.free_port()
+            try:
+                w.start(text=file_text(w, 'A', ports), port=w.port)
+                break
+            except RuntimeError as e:
+                if attempt == 3 or 'AddrInUse' not in str(e):
+                    raise
         clients = {}
         txconn = {}
         parked = []
